@@ -29,6 +29,18 @@ def main():
             if rc != 0 or got != WANT:
                 fails += 1
                 print('FAIL label=buildClassTable.base_class_is_populated_before_the_derived_class program=%s detail=classes declared in the order %s%s: printed %s, expected %s' % (json.dumps(src), names, ' after main' if main_first else '', got[:12], WANT))
+    # a generic class in the middle of the chain
+    GB = 'class Base { public int x; public constructor() -> Base { this.x = 7; return this; } public virtual function name() -> string { return "base"; } }\n'
+    GX = 'class Box<T> extends Base { public int w; public constructor() -> Box<T> { super(); this.w = 3; return this; } public override function name() -> string { return "box"; } }\n'
+    GD = 'class Derived extends Box<int> { public int y; public constructor() -> Derived { super(); this.y = 9; return this; } }\n'
+    GM = 'function main() -> void { Derived d = new Derived(); echo(d.x); echo(d.w); echo(d.y); Base b = d; echo(b.name()); }\n'
+    for order in itertools.permutations([GB, GX, GD]):
+        src = ''.join(order) + GM
+        rc, out = run(bloch, src); n += 1
+        got = [l.strip() for l in out.strip().split('\n') if l.strip()]
+        if rc != 0 or got != ['7', '3', '9', 'box']:
+            fails += 1
+            print('FAIL label=buildClassTable.base_class_is_populated_before_the_derived_class program=%s detail=generic class in the middle of the chain, classes declared in the order %s: printed %s, expected %s' % (json.dumps(src), ''.join(re.findall(r'class (\w)', ''.join(order))), got[:6], ['7', '3', '9', 'box']))
     print(json.dumps(dict(oracle_checks=n, oracle_failures=fails)))
     sys.exit(1 if fails else 0)
 main()
